@@ -21,8 +21,8 @@ ASSUMPTIONS = [
     "TypedDict closedness and dropped surplus fixed-tuple members are not demanded; RecursionError/MemoryError are neither results nor violations",
 ]
 PLAN = {"quick": dict(programs=4000, depth=3, pool=14, values=2), "thorough": dict(programs=30000, depth=4, pool=30, values=4)}
-FLOORS = {"quick": {"returned": 150000, "raised": 100000, "corruptions": 150000, "shapes": 4000, "ill_typed_instances": 4000},
-          "thorough": {"returned": 600000, "raised": 400000, "corruptions": 400000, "shapes": 20000, "ill_typed_instances": 30000}}
+FLOORS = {"quick": {"returned": 150000, "raised": 100000, "corruptions": 150000, "shapes": 4000, "ill_typed_instances": 4000, "bytes_like_targets_checked": 2000},
+          "thorough": {"returned": 600000, "raised": 400000, "corruptions": 400000, "shapes": 20000, "ill_typed_instances": 30000, "bytes_like_targets_checked": 15000}}
 
 
 def judge(sh, spec, x, tsrc, origin, prog=None):
@@ -158,6 +158,52 @@ def run_case(sh, i, plan):
         prog.drop()
 
 
+class _MyBytes(bytes):
+    pass
+
+
+def bytes_like_case(sh, rng):
+    """bytes-like targets (outside the grammar U, but 'every supported T'): the result is an instance of exactly the target class at
+    every position, for every input - other carriers, text, temporals, numbers, hostile objects."""
+    import datetime
+    import typing
+
+    T = rng.choice([bytes, bytearray, memoryview, _MyBytes])
+    tz = datetime.timezone(datetime.timedelta(hours=5, minutes=30))
+    temporals = [datetime.date(2020, 1, 2), datetime.datetime(2020, 1, 2, 3, 4, 5, 6, tzinfo=tz), datetime.time(1, 2, 3, tzinfo=tz), datetime.timedelta(days=1, seconds=2)]
+    raw = rng.choice([b"", b"abc", b"\xff\x00", b"[1]"])
+    inputs = temporals + [raw, bytearray(raw), memoryview(raw), _MyBytes(raw), raw.decode("latin-1"), 5, 2.5, None, True, [1, 2], {"a": 1}]
+    inputs += [x for x in (hostile.pool_item(rng) for _ in range(4)) if not hasattr(x, "__next__")]
+    shapes = [("root", T, lambda x: x, lambda r: [r]), ("list", list[T], lambda x: [x, x], lambda r: list(r)),
+              ("dict", dict[str, T], lambda x: {"k": x}, lambda r: list(r.values())), ("optional", typing.Optional[T], lambda x: x, lambda r: [r]),
+              ("tuple", tuple[T, int], lambda x: (x, 1), lambda r: [r[0]])]
+    for x in inputs:
+        pos, A, wrap, leaves = rng.choice(shapes)
+        sh.count("bytes_like_targets_checked")
+        sh.eval(("bytes-like", T.__name__, pos, type(x).__name__))
+        try:
+            with quiet():
+                r = typelib.unmarshal(A, wrap(x))
+        except Exception:  # noqa: BLE001
+            sh.count("raised")
+            continue
+        sh.count("returned")
+        if pos == "optional" and r is None and x is None:
+            continue
+        try:
+            bad = [e for e in leaves(r) if not isinstance(e, T)]  # isinstance semantics, as at every scalar position
+        except Exception:  # noqa: BLE001
+            bad = [r]
+        if bad:
+            sh.violation("nonconforming", type_src=f"{pos}[{T.__name__}]", input=short(x, 120), result=short(r, 160), path=f"<{type(bad[0]).__name__} is not {T.__name__}>",
+                         origin="bytes-like", input_class=type(x).__name__)
+
+
 def run_shard(sh):
     plan = PLAN[sh.tier]
-    sh.run_cases(per_shard(plan["programs"], sh.nshards, sh.shard), lambda i: run_case(sh, i, plan))
+    def case(i):
+        run_case(sh, i, plan)
+        if i % 10 == 0:
+            bytes_like_case(sh, case_rng(sh, i, "bytes-like"))
+
+    sh.run_cases(per_shard(plan["programs"], sh.nshards, sh.shard), case)
